@@ -350,9 +350,12 @@ RequestSnapA(i) ==
 
 (* the application takes a snapshot of its state machine at a durable applied index *)
 SnapPointOf(i) == Min(Min(app[i].applied, node[i].log.applied), Min(dur[i].hs.commit, StorLast(dur[i])))
+(* a snapshot may be taken at whatever the application has applied and the disk holds; the stored commit index may
+   lag (the commit index of a LightReady need not be written) and does not bound it; compaction stays bounded by it *)
+MakeSnapPointOf(i) == Min(Min(app[i].applied, node[i].log.applied), StorLast(dur[i]))
 MakeSnapA(i) ==
     /\ i \in Ids /\ up[i]
-    /\ LET s == SnapPointOf(i)
+    /\ LET s == MakeSnapPointOf(i)
        IN /\ s > 0 /\ s > dur[i].ti /\ stor[i].snapi < s /\ StorTermOK(dur[i], s)
           /\ LET snap == [i |-> s, t |-> StorTerm(dur[i], s), conf |-> ConfAt(app[i], s),
                           data |-> SelectSeq(app[i].sm, LAMBDA x : x[1] <= s)]
